@@ -54,9 +54,21 @@ func jobC08x(c *rt.Ctx) {
 			pt[0] = byte(i)
 		}
 		o, e := X25519(h[:32], pt)
+		// the array API on the same point as given, with bit 255 set and with bit 255 clear
+		var d1, d2, d3, in, b1 [32]byte
+		copy(in[:], h[:32])
+		copy(b1[:], pt)
+		ScalarMult(&d1, &in, &b1)
+		b1[31] |= 0x80
+		ScalarMult(&d2, &in, &b1)
+		b1[31] &= 0x7f
+		ScalarMult(&d3, &in, &b1)
+		ptHi := append([]byte{}, pt...)
+		ptHi[31] |= 0x80
+		o2, e2 := X25519(h[:32], ptHi)
 		emit("x25519-generic", func() map[string]interface{} {
-			return map[string]interface{}{"scalar": ref.Hex(h[:32]), "point": ref.Hex(pt), "out": ref.Hex(o)}
-		}, o, []byte(fmt.Sprint(e != nil)))
+			return map[string]interface{}{"scalar": ref.Hex(h[:32]), "point": ref.Hex(pt), "out": ref.Hex(o), "array_api": ref.Hex(d1[:]), "array_api_bit255_set": ref.Hex(d2[:])}
+		}, o, []byte(fmt.Sprint(e != nil)), d1[:], d2[:], d3[:], o2, []byte(fmt.Sprint(e2 != nil)))
 	}
 	// constructed results (as C11): (scalar, point) pairs whose RFC 7748 result is a chosen u - the
 	// smallest values (the range in which a backend that stops at a partially reduced value differs
